@@ -2532,6 +2532,18 @@ impl XmlElement {
         removed.into_iter().next()
     }
 
+    /// The specified attribute (namespace declarations included) with this qualified name.
+    pub fn attribute_qname(
+        &self,
+        prefix: Option<&str>,
+        local_name: &str,
+    ) -> Option<XmlNode<XmlAttribute>> {
+        self.attributes
+            .iter()
+            .filter_map(|v| v.as_attribute())
+            .find(|v| v.borrow().prefix() == prefix && v.borrow().local_name() == local_name)
+    }
+
     /// Removes the attribute with this qualified name (prefix and local name).
     pub fn remove_attribute_qname(
         &mut self,
